@@ -115,6 +115,8 @@ def run(tier: str, rep: Report):
                 srcs.append({"id": f"sig:{i}:lambda", "src": src, "decl": decl, "target": target})
         for name, src, decl, target in SCOPES:
             srcs.append({"id": f"scope:{name}", "src": src, "decl": decl, "target": target})
+        # functions compiled under a future statement the data model has no field for (known finding, see C01)
+        srcs.append({"id": "future:barry", "src": "from __future__ import barry_as_FLUFL\ndef f(a, *b):\n    return a\ng = lambda: 0\n"})
         extra[v] = srcs
         nsrc += len(srcs)
     rep.cov["evaluations"] = nsrc
@@ -134,7 +136,21 @@ def run(tier: str, rep: Report):
         pool.close()
     fails = df.validate(rep, files)
 
+    barry_only = {}
+    for fn_ in files:
+        if "xsrc-" in fn_ or "src-" in fn_:
+            with open(fn_) as fh:
+                for line in fh:
+                    if '"future:barry' in line[:60]:
+                        e_ = json.loads(line)
+                        ex_ = e_["lib"].get("exc", "")
+                        barry_only[e_["id"]] = (e_["lib"].get("exc_type") == "ValueError" and "barry_as_FLUFL" in ex_
+                                                and ex_.count("'") == 2)
+
     def keyfn(evid, clauses):
+        if evid.startswith("future:barry") and clauses == ["P04.decodes"] and barry_only.get(evid):
+            # from_code refuses the function, naming exactly this flag (same root cause as the known C01 finding)
+            return f"{PID}/decodes/from_code-future-flag-barry_as_FLUFL"
         return f"{PID}/{'+'.join(sorted(c.split('.')[1] for c in clauses))}/{evid.split(':')[0]}/ver{df.ver_of(evid)}"
 
     def corrupt(e):
